@@ -605,39 +605,61 @@ def r07_7(chk, sht):
             chk.ob("R07.7", SHT, "SHT.__init__", "the default nphi is 2 lmax + 1", True, fingerprint="nphi-request")
         else:
             raise AnalysisError(f"{SHT}:SHT.__init__: the default nphi is not a call of a module-level helper: {str(nst[0].value)[:100]}")
-    # ntheta: chain of non-decreasing roundings starting from lmax + 1
-    ok = False
-    cur = ntheta
+    # ntheta >= lmax + 1: a lower bound relative to L + 1 is propagated through the expression (lmax >= 0):
+    #   a*lmax + b (a >= 1)  >=  (L+1) + b - 1;   k*((y)//k)  >=  y - (k-1);   x + (x & 1)  >=  x;   max(..)  >=  each argument
     steps = []
     L1 = P.atom(("attr", P.name("self"), "lmax")) + 1
-    for _ in range(6):
-        if cur is None:
-            break
-        if cur == L1:
-            ok = True
-            break
-        # ((x + k - 1) // k) * k
-        if cur.is_poly() and len(cur.n) == 1:
-            (mono, c), = cur.n.items()
-            if len(mono) == 1 and mono[0][1] == 1 and c.denominator == 1 and c > 0:
-                a = mono[0][0]
-                if a[0] == "bin" and a[1] == "FloorDiv" and a[3] == P.const(c):
-                    inner = a[2] - (c - 1)
-                    steps.append(f"round up to a multiple of {c}")
-                    cur = inner
-                    continue
-        # x + (x & 1)
-        found = False
-        for a in cur.atoms():
-            if a[0] == "bin" and a[1] == "BitAnd" and a[3] == P.const(1) and cur == a[2] + P.atom(a):
-                steps.append("round up to even")
-                cur = a[2]
-                found = True
-                break
-        if not found:
-            break
+    LM = P.atom(("attr", P.name("self"), "lmax"))
+
+    def lb(t, depth=0):
+        """c with t >= (L + 1) + c, or None."""
+        if t is None or depth > 8:
+            return None
+        d = t - L1
+        if d.const_value() is not None:
+            return d.const_value()
+        if t.is_poly():
+            # affine in lmax with slope >= 1
+            try:
+                slope = (t.subs({LM.as_atom(): P.const(1)}) - t.subs({LM.as_atom(): P.const(0)})).const_value()
+                icpt = t.subs({LM.as_atom(): P.const(0)}).const_value()
+                if slope is not None and icpt is not None and slope >= 1 and (t - slope * LM - icpt).is_zero():
+                    return icpt - 1
+            except Exception:      # noqa: BLE001
+                pass
+            if len(t.n) == 1 and not t.d_is_one() if hasattr(t, "d_is_one") else False:
+                return None
+            if len(t.n) == 1:
+                (mono, c), = t.n.items()
+                if len(mono) == 1 and mono[0][1] == 1 and c.denominator == 1 and c > 0:
+                    at = mono[0][0]
+                    if at[0] == "bin" and at[1] == "FloorDiv" and at[3] == P.const(c):
+                        inner = lb(at[2], depth + 1)
+                        steps.append(f"round down to a multiple of {c}")
+                        return None if inner is None else inner - (int(c) - 1)
+            for at in t.atoms():
+                if at[0] == "bin" and at[1] == "BitAnd" and at[3].const_value() is not None and at[3].const_value() >= 0:
+                    rest = t - P.atom(at)
+                    if not any(x == at for x in rest.atoms()):
+                        steps.append("plus a non-negative bit mask")
+                        return lb(rest, depth + 1)
+        ta = t.as_atom()
+        if ta and ta[0] == "call" and call_name(ta) in ("max", "numpy.maximum") and ta[2]:
+            vals = [lb(x, depth + 1) for x in ta[2]]
+            vals = [v for v in vals if v is not None]
+            steps.append("max")
+            return max(vals) if vals else None
+        if ta and ta[0] == "call" and call_name(ta) in ("min", "numpy.minimum") and ta[2]:
+            vals = [lb(x, depth + 1) for x in ta[2]]
+            steps.append("min")
+            return None if any(v is None for v in vals) else min(vals)
+        if ta and ta[0] == "call" and call_name(ta) == "int" and len(ta[2]) == 1:
+            return lb(ta[2][0], depth + 1)
+        return None
+    bound = lb(ntheta)
+    ok = bound is not None and bound >= 0
     chk.ob("R07.7", SHT, "SHT.__init__", "the default ntheta is lmax + 1 rounded up (never down), so ntheta >= L + 1", ok,
-           expected="chain of round-up steps from self.lmax + 1", found=f"{ntheta} (steps: {steps})")
+           expected="ntheta >= self.lmax + 1 for every lmax >= 0", found=f"{ntheta}: " + (f"ntheta >= L + 1 + ({bound})" if bound is not None else "no lower bound relative to L + 1 could be derived") + f" (steps: {steps})")
 
 
 def _sizes_of(term, attr_sizes, real_branch, q):
